@@ -33,6 +33,8 @@ def coq_ty(t):
             return "(%s * %s)" % (coq_ty(t[1]), coq_ty(t[2]))
         if t[0] == "opt":
             return "(option %s)" % coq_ty(t[1])
+        if t[0] == "dict":
+            return "(list (val * %s))" % coq_ty(t[1])
     return {"val": "val", "md": "md", "bool": "bool", "nat": "nat", "aw": "aw", "unit": "unit", "optval": "(option val)",
             "optnat": "(option nat)", "pick": "pick", "key": "val"}[t]
 
@@ -314,6 +316,13 @@ class NodeTr:
             if res in ("true", "false") and neg:
                 return ("false" if res == "true" else "true", "bool")
             return (("(negb %s)" % res) if neg else res, "bool")
+        if isinstance(op, (ast.Eq, ast.NotEq)) and self.self_attr(a) is not None \
+                and self.attr(self.self_attr(a), a).kind == "strflag" and isinstance(b, ast.Constant) and isinstance(b.value, str):
+            at = self.attr(self.self_attr(a), a)
+            if b.value not in at.variants:
+                self.err("self.%s compared with %r: the model knows only %s" % (self.self_attr(a), b.value, sorted(at.variants)), e)
+            r = at.variants[b.value]
+            return (("(negb %s)" % r) if isinstance(op, ast.NotEq) else r, "bool")
         if isinstance(op, (ast.Eq, ast.NotEq)):
             ta, tya = self.ex(a, env, binds)
             tb, tyb = self.ex(b, env, binds)
@@ -381,6 +390,15 @@ class NodeTr:
 
     def ex_ListComp(self, e, env, binds):
         gens = e.generators
+        # [m for ml in L if ml for m in ml]: the empty ones are skipped first
+        if len(gens) == 2 and len(gens[0].ifs) == 1 and not gens[1].ifs and isinstance(gens[0].ifs[0], ast.Name) \
+                and isinstance(gens[0].target, ast.Name) and gens[0].ifs[0].id == gens[0].target.id \
+                and isinstance(e.elt, ast.Name) and isinstance(gens[1].target, ast.Name) and e.elt.id == gens[1].target.id \
+                and isinstance(gens[1].iter, ast.Name) and gens[1].iter.id == gens[0].target.id:
+            tl, tyl = self.ex(gens[0].iter, env, binds)
+            if tyl == MDS:
+                return ("(flatten_md (filter truthy_md %s))" % tl, "md")
+            self.err("flattening comprehension over a %s" % (tyl,), e)
         if any(g.ifs or g.is_async for g in gens):
             self.err("comprehension with a condition", e)
         # [m for ml in L for m in ml]  -> concatenation
@@ -421,7 +439,7 @@ class NodeTr:
                 return self.isinstance_(e, env, binds)
             if f.id == "len" and len(e.args) == 1 and not e.keywords:
                 t, ty = self.ex(e.args[0], env, binds)
-                if isinstance(ty, tuple) and ty[0] == "list" or ty == "md":
+                if isinstance(ty, tuple) and ty[0] in ("list", "dict") or ty == "md":
                     return ("(length %s)" % t, "nat")
                 self.err("len of a %s" % (ty,), e)
             if f.id == "tuple" and len(e.args) == 1 and not e.keywords:
@@ -848,7 +866,7 @@ class NodeTr:
             binds = []
             if want == "optval":
                 term = self.as_val(term, ty, binds, node)
-            elif ty == "nil" and (want == "md" or isinstance(want, tuple) and want[0] == "list"):
+            elif ty == "nil" and (want == "md" or isinstance(want, tuple) and want[0] in ("list", "dict")):
                 pass
             elif ty != want:
                 self.err("self.%s = <%s>, the attribute holds a %s" % (name, ty, want), node)
@@ -1264,8 +1282,23 @@ SCHEMAS["zip_latest"] = dict(
     ops={**LATEST_OPS, ("lossless_buffer", "append"): Op([PAIR], None, "wr"),
          ("lossless_buffer", "popleft"): Op([], PAIR, "wr_get")})
 
+# partition_unique: two dicts keyed by the key; keep is 'first' or 'last'
+SCHEMAS["partition_unique"] = dict(
+    params=[("n", "nat"), ("key", "val -> val"), ("keep_last", "bool")], state="pu_st",
+    store="(partition_unique_store s)", load="partition_unique_load",
+    attrs={"n": param("nat"), "key": func(1, ("total", "val"), absorbed=()),
+           "keep": Attr("strflag", variants={"last": "keep_last", "first": "(negb keep_last)"}),
+           "_buffer": field(("dict", "val")), "_metadata_buffer": field(("dict", "md"))},
+    helpers={"_get_key": "expr"},
+    ops={("_buffer", "pop"): Op(["val", "lit_none"], ("opt", "val"), "wr_get"),
+         ("_metadata_buffer", "pop"): Op(["val", "lit_none"], ("opt", "md"), "wr_get"),
+         ("_buffer", "setitem"): Op(["val", "val"], None, "wr"),
+         ("_metadata_buffer", "setitem"): Op(["val", "md"], None, "wr"),
+         ("_buffer", "contains"): Op(["val"], "bool", "rd"),
+         ("_buffer", "values"): Op([], VALS, "rd"), ("_metadata_buffer", "values"): Op([], MDS, "rd")})
+
 ORDER = ["accumulate", "map", "filter", "starmap", "pluck", "union", "Stream", "flatten", "partition", "sliding_window",
-         "unique", "collect", "slice", "combine_latest", "zip_latest"]
+         "unique", "collect", "slice", "combine_latest", "zip_latest", "partition_unique"]
 
 
 def generate_all(core):
